@@ -578,9 +578,9 @@ drain:
 
 func c16LocalWorkload(r *verifkit.Run, repeats int, stamps bool) {
 	r.SetRule("scenario = 1-3 local channels on one name with hand-fed retransmission tickers, 2-6 sender goroutines (2-6 Sends each, standard or backoff strategy, some send contexts cancelled early), 1-5 handlers registered before or during the traffic (some with an already cancelled context), cancelled by a sender goroutine at a PRNG position which then immediately sends 1-3 more messages, ticks injected by the senders and after the traffic; oracle: per handler each (sender, seqno) and each Send at most once, one seqno per Send and per-channel seqnos distinct (raw tap), nothing sent after cancel() returned reaches that handler. non-trivial = a retransmission of an already delivered message was observed, or a handler was cancelled while traffic continued")
-	n := r.N(150, 6000)
+	n := r.N(150, 15000)
 	if !stamps {
-		n = r.N(150, 1500)
+		n = r.N(150, 4000)
 	}
 	_, k1, _ := operator.GenerateKeyPair(DefaultCurve)
 	_, k2, _ := operator.GenerateKeyPair(DefaultCurve)
